@@ -60,13 +60,12 @@ def build_lines(cutoff, nmax, dense):
     out = []
     sizes = set()
     if dense:
-        sizes |= set(range(0, nmax + 1))
-    else:
-        sizes |= set(range(0, 70))
-        k = 1
-        while k <= nmax:
-            sizes |= {k - 1, k, k + 1}
-            k *= 2
+        sizes |= set(range(0, min(nmax, 4096) + 1))
+    sizes |= set(range(0, 70))
+    k = 1
+    while k <= nmax:
+        sizes |= {k - 1, k, k + 1}
+        k *= 2
     for n in sorted(s for s in sizes if 0 <= s <= nmax + 1):
         out.append(("build", "build %d %d s0" % (cutoff, n)))
     for n in (1, 2, 4, 16, 64, 256, 512, 1024):
@@ -98,7 +97,7 @@ def cases(tier, rng):
                 out.append(("lists-out-of-range", "auth %d %s %s" % (n, ls, s)))
                 out.append(("lists-out-of-range", "proof %d %s %s" % (n, ls, s)))
     # random above
-    hmax = 16 if big else 12
+    hmax = 14 if big else 12
     for rep in range(1500 if big else 300):
         h = rng.randrange(5, hmax + 1)
         n = 1 << h
